@@ -153,7 +153,7 @@ func (r *c11Runner[T]) Do(op []string) string {
 	case "unique":
 		return c.render(gogu.Unique(c.list(op[1])))
 	case "uniqueby":
-		return c.render(gogu.UniqueBy(c.list(op[2]), c.fn(op[1])))
+		return c.render(gogu.UniqueBy(c.list(op[2]), ft1(c.fn(op[1]))))
 	case "dup":
 		res := gogu.Duplicate(c.list(op[1]))
 		sort.Slice(res, func(i, j int) bool { return c.less(res[i], res[j]) })
@@ -179,11 +179,11 @@ func (r *c11Runner[T]) Do(op []string) string {
 	case "inter":
 		return c.render(gogu.Intersection(c.lists(op[1])...))
 	case "interby":
-		return c.render(gogu.IntersectionBy(c.fn(op[1]), c.lists(op[2])...))
+		return c.render(gogu.IntersectionBy(ft1(c.fn(op[1])), c.lists(op[2])...))
 	case "diff":
 		return c.render(gogu.Difference(c.list(op[1]), c.list(op[2])))
 	case "diffby":
-		return c.render(gogu.DifferenceBy(c.list(op[2]), c.list(op[3]), c.fn(op[1])))
+		return c.render(gogu.DifferenceBy(c.list(op[2]), c.list(op[3]), ft1(c.fn(op[1]))))
 	case "without":
 		return c.render(gogu.Without[T, T](c.list(op[1]), c.list(op[2])...))
 	}
